@@ -809,28 +809,45 @@ func (t *transitiveClosure) addExtensions(
 	if !opts.includeKnownExtensions {
 		return nil // nothing to do
 	}
-	for e, mode := range t.elements {
-		if mode != inclusionModeExplicit {
-			// we only collect extensions for messages that are directly reachable/referenced.
-			continue
-		}
-		msgDescriptor, ok := e.(*descriptorpb.DescriptorProto)
-		if !ok {
-			// not a message, nothing to do
-			continue
-		}
-		descriptorInfo := imageIndex.ByDescriptor[msgDescriptor]
-		for _, extendsDescriptor := range imageIndex.NameToExtensions[descriptorInfo.fullName] {
-			if mode := t.elements[extendsDescriptor]; mode == inclusionModeExcluded {
-				// This extension field is excluded.
+	// Adding an extension adds the messages it references, which may have extensions
+	// of their own. We must not add to t.elements while ranging over it (whether such
+	// entries are visited is unspecified, making the result differ from run to run), so
+	// we collect the messages first and repeat until there are no new ones.
+	visited := make(map[*descriptorpb.DescriptorProto]struct{})
+	for {
+		var msgDescriptors []*descriptorpb.DescriptorProto
+		for e, mode := range t.elements {
+			if mode != inclusionModeExplicit {
+				// we only collect extensions for messages that are directly reachable/referenced.
 				continue
 			}
-			if err := t.addElement(extendsDescriptor, "", false, imageIndex, opts); err != nil {
-				return err
+			msgDescriptor, ok := e.(*descriptorpb.DescriptorProto)
+			if !ok {
+				// not a message, nothing to do
+				continue
+			}
+			if _, ok := visited[msgDescriptor]; ok {
+				continue
+			}
+			visited[msgDescriptor] = struct{}{}
+			msgDescriptors = append(msgDescriptors, msgDescriptor)
+		}
+		if len(msgDescriptors) == 0 {
+			return nil
+		}
+		for _, msgDescriptor := range msgDescriptors {
+			descriptorInfo := imageIndex.ByDescriptor[msgDescriptor]
+			for _, extendsDescriptor := range imageIndex.NameToExtensions[descriptorInfo.fullName] {
+				if mode := t.elements[extendsDescriptor]; mode == inclusionModeExcluded {
+					// This extension field is excluded.
+					continue
+				}
+				if err := t.addElement(extendsDescriptor, "", false, imageIndex, opts); err != nil {
+					return err
+				}
 			}
 		}
 	}
-	return nil
 }
 
 func (t *transitiveClosure) exploreCustomOptions(
